@@ -132,9 +132,14 @@ type dbState struct {
 }
 
 type nodeState struct {
-	name    string
-	cn      *sim.CNode
-	filter  []string
+	name   string
+	cn     *sim.CNode
+	filter []string
+	// a node with a database filter cannot be a candidate (cmd/litefs refuses the configuration): n2 is a
+	// candidate without a filter only while it creates a database of its own in the seed phase, and is
+	// restarted as a non-candidate with the filter afterwards
+	candidate bool
+	useFilter bool
 	blocked bool
 	seeding atomic.Bool // the node acts as primary to create an orphan database
 	streams atomic.Int64
@@ -224,9 +229,15 @@ func Run(sc Script, cfg Config, dir string) (res Result) {
 	e.cl.Lease.AllowOnly()
 	defer func() { _ = core.Try(e.cl.Close) }()
 	for _, n := range []string{"n1", "n2", "n3"} {
-		ns := &nodeState{name: n, dbs: map[string]*dbState{}}
+		ns := &nodeState{name: n, dbs: map[string]*dbState{}, candidate: true, useFilter: true}
 		if n == "n2" {
 			ns.filter = append([]string(nil), sc.Filter...)
+			ns.candidate, ns.useFilter = false, true
+			for _, st := range sc.H {
+				if st.A == "Orphan" && st.G.N == "n2" {
+					ns.candidate, ns.useFilter = true, false
+				}
+			}
 		}
 		e.nodes[n] = ns
 		e.foreign[n] = map[string]ltx.Pos{}
@@ -247,6 +258,14 @@ func Run(sc Script, cfg Config, dir string) (res Result) {
 		}
 		if res.Infra != "" || e.failed() {
 			break
+		}
+	}
+	if n2 := e.nodes["n2"]; res.Infra == "" && !e.failed() && n2.candidate {
+		// the seed phase is over: n2 comes back the way a filtered node is configured
+		n2.candidate, n2.useFilter = false, true
+		e.cl.Stop("n2")
+		if err := e.startNode(n2); err != nil {
+			res.Infra = "restart n2 with its filter: " + err.Error()
 		}
 	}
 	if res.Infra == "" && !e.failed() {
@@ -288,8 +307,10 @@ func Run(sc Script, cfg Config, dir string) (res Result) {
 }
 
 func (e *engine) startNode(ns *nodeState) error {
-	cn, err := e.cl.Start(ns.name, sim.ClusterNodeOpts{Candidate: true, Compress: e.cfg.Compress, Configure: func(s *litefs.Store) {
-		s.DatabaseFilter = append([]string(nil), ns.filter...)
+	cn, err := e.cl.Start(ns.name, sim.ClusterNodeOpts{Candidate: ns.candidate, Compress: e.cfg.Compress, Configure: func(s *litefs.Store) {
+		if ns.useFilter {
+			s.DatabaseFilter = append([]string(nil), ns.filter...)
+		}
 		s.Client = &tapClient{Client: s.Client, e: e, ns: ns}
 	}})
 	if err != nil {
